@@ -353,6 +353,15 @@ func hexDecode(t string) ([]byte, error) {
 	return hex.DecodeString(t)
 }
 
+// tfidfLogLines: the natural-logarithm table the TF-IDF model needs (math.Log(N/dc), dc = 1..N).
+func tfidfLogLines(n int) []string {
+	var out []string
+	for dc := 1; dc <= n; dc++ {
+		out = append(out, "lg "+Itoa(dc)+" "+F(math.Log(float64(n)/float64(dc))))
+	}
+	return out
+}
+
 func fuzzyTargets(db *database.Database) []string {
 	ts := make([]string, len(db.Commands))
 	for i, c := range db.Commands {
@@ -456,6 +465,7 @@ func SearchCaseOps(cmds []database.Command, reqs []SearchReq, extra []string) []
 	for df := 0; df <= len(db.Commands); df++ {
 		ops = append(ops, "idf "+Itoa(df)+" "+F(database.VerifIDF(len(db.Commands), df)))
 	}
+	ops = append(ops, tfidfLogLines(len(db.Commands))...)
 	last := "\x00none"
 	for _, q := range reqs {
 		if q.Query != last {
@@ -523,7 +533,11 @@ func genSearch(r *Rng, tier string, idx int, args map[string]string) []string {
 	for df := 0; df <= len(db.Commands); df++ {
 		ops = append(ops, "idf "+Itoa(df)+" "+F(database.VerifIDF(len(db.Commands), df)))
 	}
+	ops = append(ops, tfidfLogLines(len(db.Commands))...)
 	for _, q := range queries {
+		if r.Chance(1, 2) {
+			ops = append(ops, "tfidf "+Hx(strings.ToLower(strings.TrimSpace(q))))
+		}
 		ops = append(ops, oracleLines(db, q)...)
 		o := genOptions(r)
 		ops = append(ops, "search "+Hx(q)+" "+optsTokens(o))
@@ -583,8 +597,19 @@ func execSearch(ops []string, mon *Mon) []string {
 		case "cmd":
 			cmds = append(cmds, parseCmdLine(f))
 			out = append(out, "ok")
-		case "ri", "idf", "nq", "pq", "ib", "cb", "tf", "fz":
+		case "ri", "idf", "nq", "pq", "ib", "cb", "tf", "fz", "lg":
 			out = append(out, "ok")
+		case "tfidf":
+			d := getDB()
+			res, ok := d.VerifTFIDF(UnHx(f[1]))
+			line := "tf " + Itoa(len(res))
+			if !ok {
+				line = "tf 0"
+			}
+			for _, r := range res {
+				line += " " + Itoa(r.CommandIndex) + " " + F(r.Similarity)
+			}
+			out = append(out, line)
 		case "normq":
 			out = append(out, "nq "+Hx(strings.ToLower(strings.TrimSpace(UnHx(f[1])))))
 		case "tokens":
